@@ -166,3 +166,25 @@ def bad_drain_truthtest(source):
     if source:                          # full scan through IterContainer.__len__
         for row in it:
             yield tuple(row)
+
+
+def bad_logs_table_at_construction(table, field):
+    import logging
+    logging.getLogger(__name__).debug('cutting %r from %r' % (field, table))    # repr(table) = look() = reads rows
+    return GoodLazyCtorView(table, field)
+
+
+def good_logs_only_the_field(table, field):
+    import logging
+    logging.getLogger(__name__).debug('cutting %r' % (field,))
+    return GoodLazyCtorView(table, field)
+
+
+def bad_wrapper_forgets_presorted(table, key, presorted=False, buffersize=None, tempdir=None, cache=True):
+    from petl.transform.dedup import distinct
+    return distinct(table, key, buffersize=buffersize, tempdir=tempdir, cache=cache)
+
+
+def good_wrapper_passes_presorted(table, key, presorted=False, buffersize=None, tempdir=None, cache=True):
+    from petl.transform.dedup import distinct
+    return distinct(table, key, presorted=presorted, buffersize=buffersize, tempdir=tempdir, cache=cache)
